@@ -111,6 +111,23 @@ theorem child_process_fresh :
              "blocked_signals"])
     ∧ srcOf implCopied "ppid" = some "@ppid" := by decide
 
+/-- ★ A fork duplicates EVERY open descriptor whatever the soft RLIMIT_NOFILE is (lowering the limit never
+    closes a descriptor, and the child inherits the lowered limit too): the code does not hand the descriptors
+    over through the limit-checking accessor after the limits were copied (generated `forkFdsLimitChecked`), and
+    in the model the child's table is the parent's for every value of the limit. -/
+theorem child_fds_for_every_limit (ppid : Nat) (p : Proc) (limit : String) :
+    forkFdsLimitChecked = false
+    ∧ (Proc.forkFrom implCopied ppid { p with nofile := limit }).fds = p.fds
+    ∧ (Proc.forkFrom implCopied ppid { p with nofile := limit }).nofile = limit := by
+  have h1 : isCopied implCopied "fds" = true := by decide
+  have h2 : isCopied implCopied "resource_limits" = true := by decide
+  refine ⟨by decide, ?_, ?_⟩ <;> simp [Proc.forkFrom, h1, h2]
+
+/-- a descriptor above a lowered limit: still there in the child -/
+example : fdGet (Proc.forkFrom implCopied 2
+    { initialEnv.system with fds := fdPut initialEnv.system.fds 20 { label := "f1" }, nofile := "16" }).fds 20
+    = some { label := "f1" } := by decide
+
 /-- With everything POSIX names copied (`specCopied`, the Spec's fork) the child process is the parent's. -/
 theorem child_process_copy_spec (ppid : Nat) (p : Proc) :
     (Proc.forkFrom specCopied ppid p).fds = p.fds ∧ (Proc.forkFrom specCopied ppid p).cwd = p.cwd
